@@ -100,7 +100,7 @@ TExit  == /\ IsEv("Exit") /\ Consume
 \* (jax.checkpoint): the re-materialised steps show up again after Exit.  They change nothing in the
 \* represented state (stuttering), but their logged coherence / weight bits are still judged.
 TRemat == /\ pc = "d_reduce" /\ opts.ad_mode \in {"reverse", "2rdm"}
-          /\ l <= Len(Tr[tid]) /\ Ev.ev \in {"Prop", "QR", "Energy", "Ovlp", "SRLocal", "Opt"}
+          /\ l <= Len(Tr[tid]) /\ Ev.ev \in {"Prop", "QR", "Energy", "Ovlp", "SRLocal", "Opt", "Backward"}
           /\ Consume /\ UNCHANGED vars
           /\ obs' = IF Ev.ev = "Prop"
                     THEN [NoObs EXCEPT !.kind = "Prop", !.coh = Ev.coh, !.wdom = Ev.wdom]
